@@ -748,7 +748,26 @@ func (ec *evalCtx) applyContract(c *Contract, fn *types.Func, call *ast.CallExpr
 		if mentionsGhostLet(en) {
 			continue
 		}
-		ec.st.Assume(post.evalBool(en))
+		// likewise a conjunct about a local of the callee at its exit (err of a function without results): leaving an
+		// assumption out is always sound
+		var pt *Term
+		func() {
+			ng := len(ec.st.guards)
+			defer func() {
+				if r := recover(); r != nil {
+					if u, ok := r.(unsupportedErr); ok && strings.Contains(u.msg, "unknown identifier") {
+						ec.st.guards = ec.st.guards[:ng]
+						pt = nil
+						return
+					}
+					panic(r)
+				}
+			}()
+			pt = post.evalBool(en)
+		}()
+		if pt != nil {
+			ec.st.Assume(pt)
+		}
 	}
 	for i := range results {
 		if v, ok := scope[fmt.Sprintf("result%d", i)]; ok {
